@@ -37,6 +37,14 @@ extern ssize_t mpt_stream_push(MPT_STRUCT(stream) *stream, size_t len, const voi
 		/* error during data append */
 		if (len) {
 			post = mpt_queue_push(&stream->_wd, len, src);
+			/* message deletion returns remaining size */
+			if (!src) {
+				if (post < 0) {
+					return post;
+				}
+				stream->_info._fd &= ~MPT_STREAMFLAG(MesgActive);
+				return 0;
+			}
 		}
 		/* terminate current message */
 		else {
